@@ -51,6 +51,7 @@ class Ctx:
         self.values = {}              # clause name -> numeric residual / value (self-check sym vs num)
         self.tol = 1e-8
         self.notes = []
+        self.thin_points = []         # solver models on measure-zero branches that could not be executed symbolically
 
     # ---------------------------------------------------------------- inputs
     def _input(self, name, shape, sampler, cplx=False):
@@ -556,6 +557,7 @@ def prove(contract, inst, name, seed=0, max_paths=8, timeout=10.0, allow_concret
         return res
 
     pending = [(dict(numctx.inputs), -1)]
+    thin = []
     explored = []
     all_clause = {}
     paths_done = 0
@@ -596,9 +598,30 @@ def prove(contract, inst, name, seed=0, max_paths=8, timeout=10.0, allow_concret
         explored.append(_path_sig(w))
         pending.extend(new_seeds)
         uncovered.extend(unc)
+        thin.extend(ctx.thin_points)
     else:
         if pending:
             uncovered.append(f"path cap {max_paths} reached with {len(pending)} unexplored branches")
+    # branches that exist only on a measure-zero locus cannot be executed generically: evaluate the contract natively AT
+    # the solver's point of that locus (a concrete input); a failure there is a replayable counterexample
+    if res.status in ('undecided',) and thin:
+        for pt in thin[:6]:
+            try:
+                nctx = run_numeric(contract, inst, seeds=pt)
+            except Reject:
+                continue
+            except Exception as e:
+                res.status = 'refuted'
+                res.inputs = pt
+                res.detail = f"real code raised {type(e).__name__}: {e} at a point of a degenerate branch locus satisfying the precondition"
+                break
+            if nctx.failures:
+                res.status = 'refuted'
+                res.inputs = pt
+                res.detail = "contract fails natively on a degenerate branch locus: " + "; ".join(f"{c}: {d}" for c, d in nctx.failures[:3])
+                for c, d in nctx.failures:
+                    res.clauses[c] = ('refuted', d)
+                break
     if res.status == 'undecided' and not res.detail:
         if uncovered:
             res.status, res.detail = 'undecided', "paths not covered: " + "; ".join(uncovered[:4])
@@ -760,6 +783,9 @@ def _coverage(ctx, seeds, bound, timeout, contract, inst, rng):
             s2 = _generic_seed(ctx, seeds, model, prefix + [neg], contract, inst, rng)
             if s2 is None:
                 unc.append(f"other branch of {c!r} at {c.where} feasible but no generic seed found")
+                pt = _seed_from_model(ctx, seeds, model)
+                if pt is not None:
+                    ctx.thin_points.append(pt)
             else:
                 new.append((s2, j))
         elif st != 'unsat':
@@ -837,6 +863,18 @@ def _generic_seed(ctx, seeds, model, conds, contract, inst, rng):
         if _conds_hold(w, conds, cand):
             return _symvals_to_seeds(w, seeds, cand)
     return None
+
+
+def _seed_from_model(ctx, seeds, model):
+    """the solver's model as a concrete input (symbols not mentioned keep the old seed value)"""
+    w = ctx.world
+    symvals = dict(_seeds_to_symvals(w, seeds))
+    touched = False
+    for i, v in (model or {}).items():
+        if v is not None and i < len(w.kind) and w.kind[i] == 'sym':
+            symvals[i] = v
+            touched = True
+    return _symvals_to_seeds(w, seeds, symvals) if touched else None
 
 
 def _symvals_to_seeds(w, seeds, symvals):
